@@ -107,10 +107,6 @@ func malformedMessage(c *Conversation) {
 }
 
 func (v otrV3) verifyInstanceTags(c *Conversation, their, our uint32) error {
-	if c.theirInstanceTag == 0 {
-		c.theirInstanceTag = their
-	}
-
 	if our > 0 && our < minValidInstanceTag {
 		malformedMessage(c)
 		return errInvalidOTRMessage
@@ -121,8 +117,17 @@ func (v otrV3) verifyInstanceTags(c *Conversation, their, our uint32) error {
 		return errInvalidOTRMessage
 	}
 
-	if (our != 0 && c.ourInstanceTag != our) ||
-		(c.theirInstanceTag != their) {
+	if our != 0 && c.ourInstanceTag != our {
+		c.messageEvent(MessageEventReceivedMessageForOtherInstance)
+		return errReceivedMessageForOtherInstance
+	}
+
+	// only a well-formed message addressed to us tells us who the peer is
+	if c.theirInstanceTag == 0 {
+		c.theirInstanceTag = their
+	}
+
+	if c.theirInstanceTag != their {
 		c.messageEvent(MessageEventReceivedMessageForOtherInstance)
 		return errReceivedMessageForOtherInstance
 	}
